@@ -80,6 +80,18 @@ def main():
                     out[key] = {"depth": depth(p)}
                 except BaseException as e:  # noqa: BLE001
                     out[key] = {"error": type(e).__name__}
+                    continue
+                if mk is None:
+                    continue
+                # variation under the same limit: what creation accepted, mutation and crossover must be able to rebuild
+                for op in ("mutate", "crossover"):
+                    okey = f"{gname}/{dname}+{op}/{limit}"
+                    try:
+                        rep = TreeBasedRepresentation(g, mk(r, g, limit))
+                        q = rep.mutate(r, p) if op == "mutate" else rep.crossover(r, p, rep.create_genotype(r))[0]
+                        out[okey] = {"depth": depth(q)}
+                    except BaseException as e:  # noqa: BLE001
+                        out[okey] = {"error": type(e).__name__}
     print("C03DEEP " + json.dumps(out))
 
 
